@@ -371,6 +371,15 @@ class _NetlinkSocketModule:
         return _NlSock(W.cur.kernel, None)
 
 
+def _safe_str(ex):
+    """Text of an exception for the harness's records. The taps must never change what the code under test does: an exception whose __str__ itself raises is
+    recorded as such and travels on untouched (rendering it here would replace it by the rendering error and hide what the loop does with the original)."""
+    try:
+        return str(ex)
+    except Exception as ex2:
+        return f'<{type(ex).__name__} whose __str__ raises {type(ex2).__name__}>'
+
+
 class _TracebackShim:
     """ikesa.traceback.print_exc is only called on the generic `except Exception` recovery paths."""
 
@@ -382,7 +391,7 @@ class _TracebackShim:
         while tb is not None:
             frames.append((tb.tb_frame.f_code.co_name, tb.tb_lineno))
             tb = tb.tb_next
-        rec = {'type': et.__name__ if et else None, 'msg': str(ev), 'where': frames[-1][0] if frames else None,
+        rec = {'type': et.__name__ if et else None, 'msg': _safe_str(ev), 'where': frames[-1][0] if frames else None,
                'frames': frames[-4:]}
         W.internal_errors.append(rec)
         if W.cur is not None and W.cur.step_internal is not None:
@@ -425,7 +434,7 @@ def _wrap_check_in_states():
             return orig(self, message, states)
         except r_ikesa.IkeSaStateError as ex:
             if W.cur is not None and W.cur.step_state_errors is not None:
-                W.cur.step_state_errors.append(str(ex))
+                W.cur.step_state_errors.append(_safe_str(ex))
             raise
     tap._orig = orig
     return tap
@@ -441,7 +450,7 @@ def _wrap_entry(cls, name):
             if W.cur is not None and W.cur.step_escapes is not None:
                 import traceback
                 tb = traceback.extract_tb(ex.__traceback__)
-                W.cur.step_escapes.append({'entry': name, 'type': type(ex).__name__, 'msg': str(ex)[:200],
+                W.cur.step_escapes.append({'entry': name, 'type': type(ex).__name__, 'msg': _safe_str(ex)[:200],
                                            'where': tb[-1].name if tb else None,
                                            'file': tb[-1].filename.rsplit('/', 1)[-1] if tb else None})
             raise
